@@ -83,11 +83,7 @@ struct delegation
 
 // environment: the execution environment interface and the blockchain hook read state, they do not write the Go heap;
 // the epoch does not change during a call and stays below 2^32-1 (the loop counter of computeAndUpdateRewards is a uint32)
-func (e vm.SystemEI) GetStorage(key []byte) (r []byte)
-  assigns nothing
-func (e vm.SystemEI) BlockChainHook() (r vm.BlockchainHook)
-  pure
-  ensures r != nil
+// (vm.SystemEI.GetStorage and BlockChainHook: see the interface contracts in the C41 block above)
 func (h vm.BlockchainHook) CurrentEpoch() (r uint32)
   pure
   ensures epoch-below-2^32-1: r < 4294967295
